@@ -381,6 +381,14 @@ def isinstance_unknown(self, v, txt):
 # ---------------------------------------------------------------------------------------------- builtins
 def call_builtin(self, name, args, kwargs, st, node):
     a = [self.iter_value(x, st) for x in args]
+    want0 = getattr(self, "expect_type", None)
+    if isinstance(want0, Opt):
+        self.expect_type = want0.elt
+        try:
+            yield from self.call_builtin(name, args, kwargs, st, node)
+        finally:
+            self.expect_type = want0
+        return
     if name == "len":
         x = a[0]
         if isinstance(x, PyTuple):
